@@ -315,7 +315,7 @@ func (s *Stream) Stop() {
 	// 已退出，故同步派发到 sink（不经 pool）——若在 close(done) 后仍走 pool，worker 已退出会
 	// 使 Flush 结果丢失。
 	if s.cep != nil {
-		s.emitCepFlushSync(s.projectCep(s.cep.engine.Flush()))
+		s.flushCep()
 	}
 
 	// Release table sources (custom sources may own background refresh goroutines).
@@ -432,6 +432,17 @@ func (s *Stream) emitCepResults(results []map[string]any) {
 
 // emitCepFlushSync 在 Stop 末尾同步派发 CEP Flush 输出。此时 worker pool 已随 done 退出，
 // 故在 Stop goroutine 内直接调用 sink（同步、不经 pool），避免未闭合匹配的 Flush 结果丢失。
+// flushCep delivers the matches still open at Stop. A MEASURES expression that panics on a
+// flushed match is contained, as it is for a match completed by a row: Stop must not panic.
+func (s *Stream) flushCep() {
+	defer func() {
+		if r := recover(); r != nil {
+			s.log.Error("process panic recovered during the final MATCH_RECOGNIZE flush: %v", r)
+		}
+	}()
+	s.emitCepFlushSync(s.projectCep(s.cep.engine.Flush()))
+}
+
 func (s *Stream) emitCepFlushSync(results []map[string]any) {
 	if len(results) == 0 {
 		return
